@@ -1581,7 +1581,10 @@ int hwloc_bitmap_compare_first(const struct hwloc_bitmap_s * set1, const struct 
 		}
 	}
 
-	return !!set1->infinite - !!set2->infinite;
+	/* no finite bit anywhere, only the infinite parts may differ:
+	 * the infinite one has a first bit, the other one is empty and considered higher
+	 */
+	return !!set2->infinite - !!set1->infinite;
 }
 
 int hwloc_bitmap_compare(const struct hwloc_bitmap_s * set1, const struct hwloc_bitmap_s * set2)
